@@ -7,7 +7,7 @@ src="$1"; name="$2"
 wt=/tmp/seedv/$name
 mkdir -p /tmp/seedv
 git -C /repo worktree add --detach "$wt" HEAD >/dev/null 2>&1 || { echo "cannot create worktree"; exit 3; }
-export CARGO_TARGET_DIR=/tmp/seedv/target   # shared across verifications, removed by the caller at the end
+export CARGO_TARGET_DIR=${SEEDV_TARGET:-/tmp/seedv/target}   # shared across verifications, removed by the caller at the end
 cd "$wt"
 cp "$src/demo.rs" tests/demo_seed.rs
 clean=$(cargo test --offline --all-features --test demo_seed 2>&1 | grep -E "^test result" | tail -1)
